@@ -90,7 +90,7 @@ def gen_exchange(rng, cell):
         ex['m'] = rng.bytes(rng.choice([0, 1, 11, 32, 64, 255, 256, 512, rng.below(513)])).hex()
     else:
         sf = {}
-        for k in rng.sample([1, 2, 3, 4], rng.rng(1, 3)):
+        for k in rng.sample(range(1, 9), rng.rng(1, 3)):
             sf['sigfield%d' % k] = rng.bytes(rng.choice([1, 8, 32, 170])).hex()
         ex['sigfields'] = sf
     return ex
